@@ -238,6 +238,49 @@ func generate(f *rep.Flags, bounds map[string]any, emit func(*Case)) {
 		}
 	}
 
+	// F1b: the command line with the lone marker (UpdateArgs with no arguments) among the actions. What an
+	// empty command line means for the container is left open by the statements, so only the ownership
+	// verdicts (C01, C02) are evaluated on this family: the marker releases the earlier claim and its
+	// sender owns the command line from then on.
+	if want("argsmarker") {
+		k := items.K("args")
+		it := item0(k)
+		for _, ch := range channels {
+			if ch.name != "create.adjust" {
+				continue
+			}
+			for n := 2; n <= nSingle+1; n++ {
+				for _, ov := range origVariants(ch, []merge.Item{it}, th) {
+					vec := make([]int, n)
+					var rec func(i int)
+					rec = func(i int) {
+						if i == n {
+							lone := false
+							for _, a := range vec {
+								lone = lone || a == aRemove
+							}
+							if !lone {
+								return
+							}
+							c := &Case{Family: "argsmarker", Chan: ch.name, Focus: []string{k.Name}, Prepop: ov.name,
+								Req: merge.Request{Kind: ch.req, ID: own, Orig: ov.m, OrigList: ov.l}}
+							for p, a := range vec {
+								c.Resps = append(c.Resps, respFor(ch, opsFor(it, a, p), false))
+							}
+							out(c)
+							return
+						}
+						for _, a := range []int{aNone, aSet, aRemove, aRemSet} {
+							vec[i] = a
+							rec(i + 1)
+						}
+					}
+					rec(0)
+				}
+			}
+		}
+	}
+
 	// F2: two items (two kinds, or two keys of one kind); each plugin sets a subset, in both list orders
 	if want("pair") {
 		var list []merge.Item
@@ -627,7 +670,15 @@ func generate(f *rep.Flags, bounds map[string]any, emit func(*Case)) {
 	if want("emptyupd") {
 		targets := []string{own, otherX}
 		fld := merge.Item{Kind: "cpu.shares"}
-		for _, rk := range []string{"create", "update", "stop"} {
+		fmE, _ := fullOrig(true)
+		type rkp struct {
+			rk, prepop string
+			orig       map[merge.Item]int
+		}
+		// an update request is also tried with every resource field populated by the runtime: an update that
+		// sets nothing must leave what the runtime submitted in place for the later plugins and in the result
+		for _, rq := range []rkp{{"create", "empty", map[merge.Item]int{}}, {"update", "empty", map[merge.Item]int{}}, {"update", "full", fmE}, {"stop", "empty", map[merge.Item]int{}}} {
+			rk := rq.rk
 			for _, t := range targets {
 				for shape := 0; shape < 3; shape++ {
 					for _, ig := range []bool{false, true} {
@@ -645,8 +696,8 @@ func generate(f *rep.Flags, bounds map[string]any, emit func(*Case)) {
 							}
 						}
 						for _, o := range others {
-							c := &Case{Family: "emptyupd", Chan: rk + ".updates", Focus: []string{"updates"}, Prepop: "empty",
-								Req: merge.Request{Kind: rk, ID: own, Orig: map[merge.Item]int{}}}
+							c := &Case{Family: "emptyupd", Chan: rk + ".updates", Focus: []string{"updates"}, Prepop: rq.prepop,
+								Req: merge.Request{Kind: rk, ID: own, Orig: rq.orig}}
 							full := func(p int) merge.Update {
 								return merge.Update{Target: o.target, Sets: []merge.Op{{Item: fld, Val: pval(p, 0)}}}
 							}
